@@ -2,9 +2,13 @@
 package vflock
 
 import (
+	"os"
+	"syscall"
+
 	"github.com/gofrs/flock"
 
 	"github.com/XiXi-2024/xixi-kv/verifrt/iorec"
+	"github.com/XiXi-2024/xixi-kv/verifrt/sched"
 )
 
 type Option = flock.Option
@@ -13,13 +17,49 @@ func SetFlag(flag int) Option { return flock.SetFlag(flag) }
 
 type Flock struct {
 	*flock.Flock
+	// orphan: descriptor of a lock file that was opened, then unlinked / replaced by another thread
+	// before the flock call (only reachable under the controlled scheduler, see TryLock)
+	orphan *os.File
 }
 
-func New(path string, opts ...Option) *Flock { return &Flock{flock.New(path, opts...)} }
+func New(path string, opts ...Option) *Flock { return &Flock{Flock: flock.New(path, opts...)} }
 
 func NewFlock(path string) *Flock { return New(path) }
 
+// TryLock. The library opens the lock file and then calls flock(2): two system calls with a window in
+// between. Under the controlled scheduler (iorec.SchedPoints) that window is made explorable without
+// re-implementing the library: a probe descriptor is opened, other threads may run, and only if the
+// path no longer names the probed inode (somebody unlinked / recreated the lock file in the window)
+// is the lock taken on the probe descriptor itself — exactly what the library's already opened
+// descriptor would have done. Otherwise the probe is dropped and the real TryLock runs.
 func (f *Flock) TryLock() (ok bool, err error) {
+	if iorec.SchedPoints && sched.GetMode() == sched.ModeCtl {
+		probe, perr := os.OpenFile(f.Path(), os.O_CREATE|os.O_RDONLY, 0o644)
+		if perr == nil {
+			sched.Yield() // the window between open(2) and flock(2)
+			pst, e1 := probe.Stat()
+			cst, e2 := os.Stat(f.Path())
+			if e1 == nil && (e2 != nil || !os.SameFile(pst, cst)) {
+				err = iorec.Do("flock", f.Path(), "", 0, 2, func() error {
+					if e := syscall.Flock(int(probe.Fd()), syscall.LOCK_EX|syscall.LOCK_NB); e != nil {
+						if e == syscall.EWOULDBLOCK {
+							return nil
+						}
+						return e
+					}
+					ok = true
+					return nil
+				})
+				if ok {
+					f.orphan = probe
+				} else {
+					probe.Close()
+				}
+				return
+			}
+			probe.Close()
+		}
+	}
 	err = iorec.Do("flock", f.Path(), "", 0, 0, func() error {
 		var e error
 		ok, e = f.Flock.TryLock()
@@ -33,9 +73,23 @@ func (f *Flock) Lock() error {
 }
 
 func (f *Flock) Unlock() error {
-	return iorec.Do("funlock", f.Path(), "", 0, 0, func() error { return f.Flock.Unlock() })
+	return iorec.Do("funlock", f.Path(), "", 0, 0, func() error {
+		if f.orphan != nil {
+			syscall.Flock(int(f.orphan.Fd()), syscall.LOCK_UN)
+			f.orphan.Close()
+			f.orphan = nil
+			return nil
+		}
+		return f.Flock.Unlock()
+	})
 }
 
 func (f *Flock) Close() error {
-	return iorec.Do("funlock", f.Path(), "", 0, 1, func() error { return f.Flock.Close() })
+	return iorec.Do("funlock", f.Path(), "", 0, 1, func() error {
+		if f.orphan != nil {
+			f.orphan.Close()
+			f.orphan = nil
+		}
+		return f.Flock.Close()
+	})
 }
